@@ -1,0 +1,279 @@
+//go:build verif
+
+package align
+
+// Contracts for property C01 (author C01b): the representation invariant wf / wfa is kept by the
+// mutators of align/seqbag.go and align/align.go that had no contract yet. Comments only.
+
+// ---- name trimming ----
+
+// TrimNames: rows, order and residues untouched; every row that had an entry in namemap takes the mapped name; afterwards
+// namemap maps every old row name to the new name of that row; the bag stays well-formed (index included) unless two rows
+// now share a name
+//@ func (*seqbag).TrimNames
+//@   props C01
+//@   requires wf(sb) && namemap != nil
+//@   ensures samerows(sb) && sb.alphabet == old(sb.alphabet)
+//@   ensures uniq(sb) ==> wf(sb)
+//@   ensures result == nil ==> forall r :: 0 <= r && r < nrows(sb) ==> has(namemap, old(rowname(sb, r))) && namemap[old(rowname(sb, r))] == rowname(sb, r)
+//@   ensures forall k string :: old(has(namemap, k)) ==> has(namemap, k) && namemap[k] == old(namemap[k])
+//@   ensures result != nil && nrows(sb) > 0 && size < 2 ==> forall r :: 0 <= r && r < nrows(sb) ==> rowname(sb, r) == old(rowname(sb, r))
+//@   modifies sb.seqmap, map(sb.seqmap), field(seq.name), map(namemap)
+//@   loop 1
+//@     invariant wf(sb) && namemap != nil && shortmap != nil && fresh(shortmap) && (nrows(sb) > 0 ==> size >= 2)
+//@   loop 2
+//@     modifies field(seq.name), map(namemap), map(shortmap), map(sb.seqmap), mem(any)
+//@     invariant sb != nil && rowsok(sb) && namemap != nil && shortmap != nil && fresh(shortmap) && (nrows(sb) > 0 ==> size >= 2)
+//@     invariant forall r1, r2 :: 0 <= r1 && r1 < r2 && r2 < nrows(sb) ==> row(sb, r1) != row(sb, r2)
+//@     invariant forall r :: 0 <= r && r < $i ==> has(namemap, old(rowname(sb, r))) && namemap[old(rowname(sb, r))] == rowname(sb, r)
+//@     invariant forall r :: $i <= r && r < nrows(sb) ==> rowname(sb, r) == old(rowname(sb, r))
+//@     invariant forall k string :: old(has(namemap, k)) ==> has(namemap, k) && namemap[k] == old(namemap[k])
+//@     decreases nrows(sb) - $i
+//@   loop 3
+//@     invariant 0 <= m
+//@     decreases size - 2 - len(newname) - m
+//@   loop 4
+//@     invariant 1 <= id && id <= 99
+//@     decreases 100 - id
+
+// TrimNamesAuto: rows, order and residues untouched; every row takes the name namemap gives to its old name (an entry is
+// created with a generated name when there is none; existing entries are never overwritten); the counter only grows;
+// the bag stays well-formed (index rebuilt) unless two rows now share a name
+//@ func (*seqbag).TrimNamesAuto
+//@   props C01
+//@   requires wf(sb) && namemap != nil && curid != nil
+//@   ensures err == nil && samerows(sb) && sb.alphabet == old(sb.alphabet)
+//@   ensures uniq(sb) ==> wf(sb)
+//@   ensures forall r :: 0 <= r && r < nrows(sb) ==> has(namemap, old(rowname(sb, r))) && namemap[old(rowname(sb, r))] == rowname(sb, r)
+//@   ensures forall k string :: old(has(namemap, k)) ==> has(namemap, k) && namemap[k] == old(namemap[k])
+//@   ensures deref(curid) >= old(deref(curid)) && deref(curid) <= old(deref(curid)) + nrows(sb)
+//@   modifies sb.seqmap, field(seq.name), map(namemap), deref(curid)
+//@   loop 1
+//@     modifies field(seq.name), map(namemap), deref(curid), mem(any)
+//@     invariant sb != nil && rowsok(sb) && namemap != nil && curid != nil
+//@     invariant forall r1, r2 :: 0 <= r1 && r1 < r2 && r2 < nrows(sb) ==> row(sb, r1) != row(sb, r2)
+//@     invariant forall r :: 0 <= r && r < $i ==> has(namemap, old(rowname(sb, r))) && namemap[old(rowname(sb, r))] == rowname(sb, r)
+//@     invariant forall r :: $i <= r && r < nrows(sb) ==> rowname(sb, r) == old(rowname(sb, r))
+//@     invariant forall k string :: old(has(namemap, k)) ==> has(namemap, k) && namemap[k] == old(namemap[k])
+//@     invariant deref(curid) >= old(deref(curid)) && deref(curid) <= old(deref(curid)) + $i
+//@     decreases nrows(sb) - $i
+
+// ---- sorting ----
+
+// Sort: the rows are rearranged in place (every row of the result is a row of the input and conversely, the row list has the
+// same storage and length), in non-decreasing order of their names; the bag stays well-formed (the name index is only read)
+//@ func (*seqbag).Sort
+//@   props C01
+//@   requires wf(sb)
+//@   ensures wf(sb) && nrows(sb) == old(nrows(sb)) && sb.alphabet == old(sb.alphabet) && sameslice(sb.seqs, old(sb.seqs))
+//@   ensures forall r :: 0 <= r && r < nrows(sb) ==> exists q :: 0 <= q && q < nrows(sb) && row(sb, r) == old(row(sb, q))
+//@   ensures forall q :: 0 <= q && q < nrows(sb) ==> exists r :: 0 <= r && r < nrows(sb) && row(sb, r) == old(row(sb, q))
+//@   ensures forall r :: 0 <= r && r + 1 < nrows(sb) ==> rowname(sb, r) <= rowname(sb, r + 1)
+//@   modifies sb.seqs[*]
+//@   loop 1
+//@     modifies names[*]
+//@     invariant len(names) == nrows(sb) && fresh(names)
+//@     invariant forall r :: 0 <= r && r < $i ==> names[r] == rowname(sb, r)
+//@     decreases nrows(sb) - $i
+//@   loop 2
+//@     modifies sb.seqs[*]
+//@     invariant len(names) == nrows(sb) && sb != nil && sb.seqmap != nil && sameslice(sb.seqs, old(sb.seqs))
+//@     invariant forall i :: 0 <= i && i < len(names) ==> exists j :: 0 <= j && j < len(names) && names[i] == old(rowname(sb, j))
+//@     invariant forall j :: 0 <= j && j < len(names) ==> exists i :: 0 <= i && i < len(names) && names[i] == old(rowname(sb, j))
+//@     invariant forall i, j :: 0 <= i && i < j && j < len(names) ==> names[i] != names[j]
+//@     invariant forall i :: 0 <= i && i + 1 < len(names) ==> names[i] <= names[i+1]
+//@     invariant forall j :: 0 <= j && j < len(names) ==> old(row(sb, j)) != nil && old(row(sb, j)).name == old(rowname(sb, j)) && has(sb.seqmap, old(rowname(sb, j))) && sb.seqmap[old(rowname(sb, j))] == old(row(sb, j))
+//@     invariant forall k string :: has(sb.seqmap, k) ==> exists j :: 0 <= j && j < len(names) && old(row(sb, j)) == sb.seqmap[k] && old(rowname(sb, j)) == k
+//@     invariant forall r :: 0 <= r && r < $i ==> row(sb, r) == sb.seqmap[names[r]] && row(sb, r) != nil && rowname(sb, r) == names[r]
+//@     invariant forall r :: $i <= r && r < nrows(sb) ==> row(sb, r) == old(row(sb, r))
+//@     decreases len(names) - $i
+
+// ---- residue replacement ----
+
+// (*seqbag).Replace: only the residues change: every row gets a newly allocated sequence (none when the regular expression
+// does not compile); rows, order, names and the name index are untouched, so a well-formed bag stays well-formed
+// ((*seqbag).Replace: one contract, in zz_contracts_c15b_verif.go, tagged C01 C15)
+
+// ---- deduplication (C01 part only: shape of the result; which rows are dropped is C13) ----
+
+// Deduplicate: the bag is rebuilt from a sub-list of its rows: it stays well-formed, every kept row has the name and the length
+// of an original row, the kept rows come in their original order, and the first row is always kept.
+// NOT COVERED: equality of the residues of a kept row with its original (proof not found: the existential witness and the byte-wise
+// string round trip string(seq.sequence) -> []uint8 together exhaust the solvers)
+//@ func (*seqbag).Deduplicate
+//@   props C01
+//@   requires wf(sb)
+//@   ensures err == nil && wf(sb) && sb.alphabet == old(sb.alphabet) && nrows(sb) <= old(nrows(sb)) && (old(nrows(sb)) > 0 ==> nrows(sb) > 0)
+//@   ensures forall r :: 0 <= r && r < nrows(sb) ==> exists q :: r <= q && q < old(nrows(sb)) && old(rowname(sb, q)) == rowname(sb, r) && old(rowlen(sb, q)) == rowlen(sb, r)
+//@   ensures forall r1, r2, q1, q2 :: 0 <= r1 && r1 < r2 && r2 < nrows(sb) && 0 <= q1 && q1 < old(nrows(sb)) && 0 <= q2 && q2 < old(nrows(sb)) && rowname(sb, r1) == old(rowname(sb, q1)) && rowname(sb, r2) == old(rowname(sb, q2)) ==> q1 < q2
+// called on an alignment (the method is promoted to *align): rectangular with the cached length as before
+//@   ensures isalign(sb) && old(wfa(sb)) ==> wfa(sb)
+//@   modifies sb.seqs, sb.seqmap
+//@   loop 1
+//@     invariant err == nil && wf(sb) && sameslice(oldseqs, old(sb.seqs)) && fresh(sb.seqmap) && fresh(sb.seqs) && sb.alphabet == old(sb.alphabet)
+//@     invariant 0 <= nrows(sb) && nrows(sb) <= $i && ($i > 0 ==> nrows(sb) > 0)
+//@     invariant seqs != nil && fresh(seqs) && fresh(identical) && (nrows(sb) == 0 ==> forall k string :: !has(seqs, k))
+//@     invariant forall k string :: has(seqs, k) ==> 0 <= seqs[k] && seqs[k] < len(identical)
+//@     invariant forall j :: 0 <= j && j < len(identical) ==> fresh(identical[j])
+//@     invariant forall r :: 0 <= r && r < nrows(sb) ==> exists q :: r <= q && q < $i && old(rowname(sb, q)) == rowname(sb, r) && old(rowlen(sb, q)) == rowlen(sb, r)
+//@     invariant forall r1, r2, q1, q2 :: 0 <= r1 && r1 < r2 && r2 < nrows(sb) && 0 <= q1 && q1 < old(nrows(sb)) && 0 <= q2 && q2 < old(nrows(sb)) && rowname(sb, r1) == old(rowname(sb, q1)) && rowname(sb, r2) == old(rowname(sb, q2)) ==> q1 < q2
+//@     decreases len(oldseqs) - $i
+
+// ---- iterators and the function literals handed to them ----
+
+// IterateAll / IterateChar call `it` on the rows in order until it returns true; they write nothing themselves. Trusted from
+// their 5-line bodies: `for _, seq := range sb.seqs { if it(seq.name, seq.sequence[, seq.comment]) { return } }`.
+// `iterates <read once before the loop> ; <number of activations> ; <arguments of activation $k, read in the current heap>`
+// is the protocol under which a function literal declared `iterated_by` one of them is verified as ONE activation of that loop
+// (its `iterinv` clauses are the loop invariant indexed by $k, `iterstop` what holds when it asks to stop; the literal must leave
+// sb.seqs itself unchanged and keep the rows non-nil). Everything a literal may write is havocked after the call; only its
+// `preserves` / `iterinv` / `iterstop` clauses are known afterwards.
+//@ func (*seqbag).IterateAll
+//@   props C01
+//@   trusted higher-order: calls its argument on each row (calls of function values are not inlined by the generator); the loop itself only reads sb.seqs
+//@   requires sb != nil && rowsok(sb)
+//@   modifies nothing
+//@   iterates sb.seqs ; len(sb.seqs) ; sb.seqs[$k].name, sb.seqs[$k].sequence, sb.seqs[$k].comment
+//@ func (*seqbag).IterateChar
+//@   props C01
+//@   trusted higher-order: calls its argument on each row (calls of function values are not inlined by the generator); the loop itself only reads sb.seqs
+//@   requires sb != nil && rowsok(sb)
+//@   modifies nothing
+//@   iterates sb.seqs ; len(sb.seqs) ; sb.seqs[$k].name, sb.seqs[$k].sequence
+
+// ---- Append ----
+
+// the literal of Append adds one row through AddSequenceChar: the receiver stays a well-formed alignment whatever the row is
+//@ func (*align).Append$1
+//@   props C01
+//@   preserves wfa(a)
+//@   ensures result == (err != nil)
+//@   modifies a.seqs, a.length, a.seqs[+], map(a.seqmap)
+
+// Append: whatever the rows of al are (wrong lengths, names already present, al == a), the receiver is a well-formed alignment
+// afterwards: rectangular with its cached length, names pairwise distinct and indexed. (Frame: the literal's effects are
+// havocked heap-wide, so nothing is claimed about other bags.)
+//@ func (*align).Append
+//@   props C01
+//@   requires wfa(a) && al != nil && wf(al)
+//@   ensures wfa(a)
+//@   modifies field(seqbag.seqs), field(align.length), mem(*seq), maps(map[string]*seq)
+
+// ---- Concat (its three function literals; Concat itself is NOT COVERED, see below) ----
+
+// first literal of Concat (rows of a that are missing in c get clen gaps): never panics - in particular the gap count handed to
+// strings.Repeat is not negative - and keeps both bags well-formed (only residues of rows of a are written, the row list of the
+// iterated alignment is left alone)
+// ((*align).Concat$1: one contract, in zz_contracts_c04b_verif.go)
+
+// third literal of Concat (recomputes the common length): never panics, writes only its two captured variables.
+// Invariant of the iteration: as long as no error is set, leng is -1 before the first row and afterwards the common length of the
+// rows visited so far - so that, on success, the length Concat caches is the length of every row.
+//@ func (*align).Concat$3
+//@   props C01
+//@   iterated_by (*seqbag).IterateChar
+//@   preserves leng >= -1
+//@   iterinv err == nil ==> ($k == 0 ? leng == -1 : leng >= 0 && (forall r :: 0 <= r && r < $k ==> rowlen($it, r) == leng))
+//@   iterstop err != nil
+//@   ensures result == (err != nil)
+//@   modifies nothing
+
+// Concat itself and its second literal (rows of c appended to / created in a): NOT COVERED.
+// The second literal calls a.AddSequence while a is transiently not rectangular (the first pass has already padded the rows that
+// are missing in c); the code is fine - AddSequenceChar only compares the new sequence with the cached length - but the existing
+// contract of (*align).AddSequenceChar requires wfa(a) (rectangular), so the literal cannot be proved against it, and without a
+// proved literal nothing is known about a after the second pass (not even that its rows are non-nil, which the third pass needs).
+// A contract of AddSequenceChar split into `requires wf(a) && a.length >= -1` / `ensures old(rect(a)) ==> rect(a)` would unblock it.
+// Clauses that were written and could not be proved for that reason:
+//   func (*align).Concat
+//     requires wfa(a) && c != nil && wfa(c)
+//     ensures a.alphabet != c.alphabet ==> err != nil
+//     ensures err == nil ==> wfa(a)
+//     modifies field(seqbag.seqs), field(align.length), field(seq.sequence), mem(*seq), mem(uint8), maps(map[string]*seq), mem(any)
+
+// ---- (*align).Replace ----
+
+// the literal of (*align).Replace compares one row length with the cached length: reads only, may set err.
+// Invariant of the iteration: as long as no error is set, the rows visited so far have the cached length.
+//@ func (*align).Replace$1
+//@   props C01 C15
+//@   iterated_by (*seqbag).IterateChar
+//@   preserves a != nil
+//@   iterinv err == nil ==> forall r :: 0 <= r && r < $k ==> rowlen($it, r) == a.length
+//@   iterstop err != nil
+//@   modifies nothing
+
+// (*align).Replace: rows, order, names, the name index and the cached length are untouched; on success every row still has the
+// cached length, so the alignment is well-formed (rectangular); on error (bad regular expression, or a length changed - the
+// documented "returns an error and the alignment is changed anyway") only the bag part is guaranteed well-formed
+//@ func (*align).Replace
+//@   props C01 C15
+//@   requires wfa(a)
+//@   ensures wf(a) && nrows(a) == old(nrows(a)) && a.length == old(a.length) && a.alphabet == old(a.alphabet)
+//@   ensures !regex && len(old) >= 1 && len(old) == len(new) ==> forall r :: 0 <= r && r < nrows(a) ==> rowlen(a, r) == old(rowlen(a, r))
+//@   ensures !regex && len(old) == 1 && len(new) == 1 ==> forall r, c :: 0 <= r && r < nrows(a) && 0 <= c && c < rowlen(a, r) ==> cell(a, r, c) == (old(cell(a, r, c)) == old[0] ? new[0] : old(cell(a, r, c)))
+//@   ensures forall r :: 0 <= r && r < nrows(a) ==> row(a, r) == old(row(a, r)) && rowname(a, r) == old(rowname(a, r))
+//@   ensures err == nil ==> wfa(a)
+//@   modifies field(seq.sequence), mem(any)
+
+// ---- bag -> alignment ----
+
+// the literal of seqBagToAlignment records one row length in al.length: writes only al.length and err.
+// Invariant of the iteration: as long as no error is set, al.length is -1 before the first row and afterwards the common length
+// of the rows visited so far.
+// (seqBagToAlignment$1: inlined through `loop in` in zz_contracts_c10b_verif.go)
+
+// seqBagToAlignment: the result is a new alignment object that takes over the row list and the name index of the bag (same
+// references), so its bag part is well-formed exactly as the bag was; on success all rows have the same length, which is the
+// cached length (-1 without rows): the result is a well-formed alignment
+// (seqBagToAlignment: one contract, in zz_contracts_c10b_verif.go (full functional))
+
+// ---- the string-typed AddSequence wrappers ----
+// `inline`: call sites keep inlining the wrappers (and so keep the full contract of AddSequenceChar); the contracts below are
+// proved on their own to put the wrappers themselves under C01.
+
+// (*align).AddSequence: the alignment stays well-formed; at most one row is added, at the end; a sequence of the wrong length is
+// rejected with an error and leaves rows and length unchanged; a new name with the right length is always added
+//@ func (*align).AddSequence
+//@   props C01
+//@   inline
+//@   requires wfa(a)
+//@   ensures wfa(a) && (nrows(a) == old(nrows(a)) || nrows(a) == old(nrows(a)) + 1)
+//@   ensures forall r :: 0 <= r && r < old(nrows(a)) ==> row(a, r) == old(row(a, r))
+//@   ensures result != nil ==> nrows(a) == old(nrows(a)) && a.length == old(a.length)
+//@   ensures old(a.length) != -1 && old(a.length) != len(sequence) && !(old(has(a.seqmap, name)) && (a.ignoreidentical == IGNORE_NAME || a.ignoreidentical == IGNORE_SEQUENCE)) ==> result != nil
+//@   ensures !old(has(a.seqmap, name)) && (old(a.length) == -1 || old(a.length) == len(sequence)) ==> result == nil && nrows(a) == old(nrows(a)) + 1 && rowname(a, old(nrows(a))) == name && rowlen(a, old(nrows(a))) == len(sequence) && a.length == len(sequence) && fresh(row(a, old(nrows(a))).sequence)
+//@   ensures a.alphabet == old(a.alphabet) && a.ignoreidentical == old(a.ignoreidentical)
+//@   modifies a.seqs, a.length, a.seqs[+], map(a.seqmap)
+
+// (*seqbag).AddSequence: the bag stays well-formed; never an error; at most one row is added, at the end; a new name is always added
+//@ func (*seqbag).AddSequence
+//@   props C01
+//@   inline
+//@   requires wf(sb)
+//@   ensures wf(sb) && result == nil && (nrows(sb) == old(nrows(sb)) || nrows(sb) == old(nrows(sb)) + 1)
+//@   ensures forall r :: 0 <= r && r < old(nrows(sb)) ==> row(sb, r) == old(row(sb, r))
+//@   ensures !old(has(sb.seqmap, name)) ==> nrows(sb) == old(nrows(sb)) + 1 && rowname(sb, old(nrows(sb))) == name && rowlen(sb, old(nrows(sb))) == len(sequence) && fresh(row(sb, old(nrows(sb))).sequence)
+//@   ensures sb.alphabet == old(sb.alphabet) && sb.ignoreidentical == old(sb.ignoreidentical)
+//@   modifies sb.seqs, sb.seqs[+], map(sb.seqmap)
+
+// ---- sampling wrappers ----
+
+// Sample: error when nb is not in [1, n]; on success a new, well-formed alignment of nb rows with the alphabet of a
+// ((*align).Sample: one contract, in zz_contracts_c10b_verif.go)
+
+// ---- rarefaction ----
+
+// the literal of rarefySeqBag adds the selected rows to the new bag, which stays well-formed and separate from the iterated bag
+// (rarefySeqBag$1: inlined through `loop in` in zz_contracts_c10b_verif.go)
+
+// rarefySeqBag itself (and so RarefySeqBag, Rarefy): NOT COVERED. Its first loop ranges over the map `counts` and stores the keys
+// at tmpcountskeys[i], i counting the iterations: in bounds because a map range makes exactly len(counts) iterations, a
+// cardinality fact about the visited-key set that the engine does not have (obligation rarefySeqBag#index:tmpcountskeys[i]
+// stays `unknown`; not a defect). Clauses that were written (all other obligations, including the division by the remaining
+// total and the slice surgery of the sampling loops, were discharged):
+//   func (*seqbag).rarefySeqBag
+//     requires wf(sb)
+//     ensures err != nil ==> sample == nil
+//     ensures err == nil ==> sample != nil && wf(sample) && sample.alphabet == sb.alphabet
+//     loop 2: invariant err == nil && sample == nil && wf(sb) && 0 <= i && total > nb - i ...; decreases nb - i
